@@ -41,11 +41,11 @@ func (c *zzConn) WriteStream(b []byte, stream uint) (int, error) {
 	c.streams = append(c.streams, stream)
 	return c.Write(b)
 }
-func (c *zzConn) Close()                   { c.closed++ }
-func (c *zzConn) LocalAddr() net.Addr      { return zzAddr{c.local} }
-func (c *zzConn) RemoteAddr() net.Addr     { return zzAddr{"10.9.9.9:5555"} }
+func (c *zzConn) Close()                    { c.closed++ }
+func (c *zzConn) LocalAddr() net.Addr       { return zzAddr{c.local} }
+func (c *zzConn) RemoteAddr() net.Addr      { return zzAddr{"10.9.9.9:5555"} }
 func (c *zzConn) TLS() *tls.ConnectionState { return nil }
-func (c *zzConn) Dictionary() *dict.Parser { return dict.Default }
+func (c *zzConn) Dictionary() *dict.Parser  { return dict.Default }
 func (c *zzConn) Context() context.Context {
 	if c.ctx == nil {
 		c.ctx = context.Background()
@@ -72,3 +72,10 @@ func (r *zzReader) Read(p []byte) (int, error) {
 }
 
 func zzFlag(tag string) bool { return vChoice(tag, 2) == 1 }
+
+func zzB2U(b bool) uint64 {
+	if b {
+		return 1
+	}
+	return 0
+}
